@@ -25,11 +25,12 @@ Repaired, now positive theorems (the witnesses stay in the harness corpus under 
 * `non_object_query_echoed`, `error_echoes_request` — every error response of the input stage echoes the
   request: a non-object query verbatim, otherwise the (expanded) query on which a plugin failed; never the
   placeholder `{"error":"unable to display query"}` (key `pipeline/request-not-echoed`).
-Both for plugins that map objects to objects or non-empty arrays of objects — proved for grid search, inject,
+`every_query_answered` for plugins that map objects to objects or non-empty arrays of objects — proved for grid search, inject,
 load balancer and the user-defined split / fail-on-marker plugins (`C06.builtin_plugins_keep_objects`,
 `C06.user_split_and_fail_keep_objects`), false of the user-defined invariant breaker
-(`invariant_breaker_counterexample`, finding `pipeline/invariant-error-loses-request`), a property of the
-recorded data for table plugins.
+(`invariant_breaker_is_answered_with_the_query`: it erases a query it answers with `[]`), a property of the
+recorded data for table plugins.  `error_echoes_request` needs no hypothesis any more (fix c053049: an invariant
+error names the original query).
 
 Where the code still deviates (finding with counterexample; key as in the harness oracle):
 * `pipeline/sibling-responses-lost` — `C06.sibling_responses_lost_counterexample`, restated here: "the
@@ -192,17 +193,18 @@ theorem non_object_query_echoed (plugins : List Plugin) (q : Json) (h : q.isObje
     prepT plugins q = .error (.obj [("request", q), ("error", .str "UnexpectedQueryStructure")]) :=
   prepT_non_object plugins q h
 
-/-- **Every error response of the input stage echoes the request**: the query itself when it is not an
-object; otherwise the query `x` — `q`, or one of the queries the earlier plugins made of `q` — on which plugin
-`p` failed (as `p` left it).  The placeholder request is gone. -/
-theorem error_echoes_request (plugins : List Plugin) (hw : ∀ p ∈ plugins, ObjOp (processT p))
-    (q e : Json) (h : prepT plugins q = .error e) :
+/-- **Every error response of the input stage echoes the request** — for every plugin list, user-defined and
+invariant-breaking plugins included: the query itself when it is not an object; the query `x` — `q`, or one of
+the queries the earlier plugins made of `q` — on which plugin `p` failed, as `p` left it (or the original
+query); the original query when a plugin broke the invariant (fix c053049).  The placeholder request is gone. -/
+theorem error_echoes_request (plugins : List Plugin) (q e : Json) (h : prepT plugins q = .error e) :
     (q.isObject = false ∧ e = .obj [("request", q), ("error", .str "UnexpectedQueryStructure")]) ∨
-    (∃ pre p post xs x pe, plugins = pre ++ p :: post ∧
+    (∃ pre p post xs x pe req, plugins = pre ++ p :: post ∧
       GridSearch.applyOps (pre.map processT) (.arr [q]) = .ok (.arr xs) ∧ x ∈ xs ∧
       processT p x = .error pe ∧
-      e = .obj [("request", pe.left.getD x), ("error", .str pe.kind)]) :=
-  C06.error_echoes_request plugins hw q e h
+      e = .obj [("request", req), ("error", .str pe.kind)] ∧ (req = pe.left.getD x ∨ req = q)) ∨
+    (q.isObject = true ∧ e = .obj [("request", q), ("error", .str invariantKind)]) :=
+  C06.error_echoes_request plugins q e h
 
 /-- an object query rejected by the first plugin is echoed verbatim (grid search, inject, load balancer: they
 fail before touching the query) -/
@@ -286,13 +288,14 @@ theorem own_plugins_fail_clean (p : Plugin) (q : Json) (e : PErr) (h : processT 
     simp only [processT, userT] at h
     split at h <;> simp at h
 
-/-- without the hypothesis the statement is false: a user-defined plugin that answers with the empty array
-erases the query (no response at all), and one that leaves a scalar makes the pipeline answer with the
-placeholder request (**finding `pipeline/invariant-error-loses-request`**) — neither panics -/
-theorem invariant_breaker_counterexample (respond : Json → Json) :
-    answer [.userBreaker "break"] respond (.obj [("break", .str "empty")]) = [] ∧
+/-- a plugin that breaks the invariant does not break the pipeline: it never panics; a scalar left behind is
+answered with an invariant error that names the query (fix c053049: it named the placeholder, key
+`pipeline/invariant-error-loses-request`).  `every_query_answered` still needs its hypothesis: a plugin that
+answers with the empty array erases the query (no expanded query, no response). -/
+theorem invariant_breaker_is_answered_with_the_query (respond : Json → Json) :
     answer [.userBreaker "break"] respond (.obj [("break", .str "scalar")])
-      = [.obj [("request", noRequest), ("error", .str invariantKind)]] ∧
+      = [.obj [("request", .obj [("break", .str "scalar")]), ("error", .str invariantKind)]] ∧
+    answer [.userBreaker "break"] respond (.obj [("break", .str "empty")]) = [] ∧
     (∀ q, ∃ r, prepO [.userBreaker "break"] q = .ok r) :=
   ⟨by rfl, by rfl, fun q => ⟨_, prepO_eq _ q⟩⟩
 
